@@ -152,6 +152,10 @@ func (t *PageTree) loadPages() error {
 
 	// Start recursive traversal from root
 	if err := t.traversePageNode(t.root, nil, 0, make(map[int]bool)); err != nil {
+		// Do not keep the pages collected before the failure: callers test
+		// t.pages == nil to decide whether the tree was loaded, and would
+		// otherwise answer the next call from a partial list without any error.
+		t.pages = nil
 		return fmt.Errorf("failed to traverse page tree: %w", err)
 	}
 
